@@ -70,6 +70,8 @@ class Profile:
     calls_in_for_list: bool = False                 # known finding F-C06-a (ra clobbered inside the for-list body subroutine)
     max_globals: int = 4
     call_heavy: bool = False                        # more nested calls and early returns (C06 / C01 call paths)
+    no_params: bool = False                         # parameterless functions (inlining binds parameters by aliasing: F-C02-c)
+    procedures_only: bool = False                   # functions return nothing (inlining of value-returning functions: F-C04-b/c)
     return_in_loops: bool = False                   # functions whose loop bodies end in a conditional return
     tco_safe: bool = False                          # tail calls only in functions with no other call and no early return (F-C02-a family)
     global_writes: bool = True                      # functions assign module-level variables (`global g`)
@@ -644,8 +646,8 @@ class Gen:
     # -- functions / program -------------------------------------------------------------------
     def gen_function(self, idx, name):
         r = self.r
-        params = [self.fresh("a") for _ in range(r.choice([0, 1, 1, 2, 2, 3] if self.p.max_funcs > 2 else [0, 1, 1, 2]))]
-        returns = r.random() < 0.6
+        params = [] if self.p.no_params else [self.fresh("a") for _ in range(r.choice([0, 1, 1, 2, 2, 3] if self.p.max_funcs > 2 else [0, 1, 1, 2]))]
+        returns = r.random() < 0.6 and not self.p.procedures_only
         sc = Scope(is_func=True, params=params)
         sc.loopvars_int = []
         self.cur_func_index = idx
